@@ -31,7 +31,8 @@ pub enum Kind {
 #[derive(Clone, Debug, Serialize, Deserialize)]
 pub struct TaskSpec {
   kind: Kind,
-  delay_ms: Option<u32>,
+  /// delay in microseconds (sub-millisecond delays are legal durations)
+  delay_us: Option<u32>,
 }
 
 #[derive(Clone, Debug, Serialize, Deserialize)]
@@ -146,8 +147,8 @@ impl Scenario for C19Des {
         4 => Kind::Fut { polls: rng.below(3) as u32 },
         _ => Kind::FutTimer { ms: *rng.pick(&[0, 1, 5]) },
       };
-      let delay_ms = if rng.chance(1, 4) { None } else { Some(*rng.pick(&[0u32, 1, 5])) };
-      tasks.push(TaskSpec { kind, delay_ms });
+      let delay_us = if rng.chance(1, 4) { None } else { Some(*rng.pick(&[0u32, 300, 999, 1000, 5000])) };
+      tasks.push(TaskSpec { kind, delay_us });
     }
     let mut acts = Vec::new();
     let len = rng.range(4, 24);
@@ -206,7 +207,7 @@ impl Scenario for C19Des {
               _ => 0,
             },
           };
-          let delay = spec.delay_ms.map(|d| Duration::from_millis(d as u64));
+          let delay = spec.delay_us.map(|d| Duration::from_micros(d as u64));
           {
             let mut l = logs.lock().unwrap();
             l[k].scheduled_at = Some(w.now());
@@ -313,7 +314,7 @@ impl Scenario for C19Des {
         "t{}:{:?}{} runs@ms={:?}{}; ",
         k,
         case.tasks[k].kind,
-        case.tasks[k].delay_ms.map_or(String::new(), |d| format!("+{}ms", d)),
+        case.tasks[k].delay_us.map_or(String::new(), |d| format!("+{}us", d)),
         l.runs.iter().map(|r| r.0 / MS).collect::<Vec<_>>(),
         if l.cancelled_at_stamp.is_some() { " cancelled" } else { "" }
       ));
@@ -350,7 +351,7 @@ fn check(case: &Case, logs: &Logs, probes: &[Arc<ProbeLog>]) -> Option<Violation
   for (k, l) in logs.iter().enumerate() {
     let spec = &case.tasks[k];
     let Some(t0) = l.scheduled_at else { continue };
-    let delay = spec.delay_ms.unwrap_or(0) as u64 * MS;
+    let delay = spec.delay_us.unwrap_or(0) as u64 * 1000;
     let kind = format!("{:?}", spec.kind).split(|c: char| !c.is_alphanumeric()).next().unwrap().to_string();
     let extra = match spec.kind {
       Kind::FutTimer { ms } => ms as u64 * MS,
@@ -522,7 +523,7 @@ impl Scenario for C19Threads {
           2 => Kind::Repeat { period_ms: 1, limit: rng.range(1, 3) as u32 },
           _ => Kind::Fut { polls: rng.below(3) as u32 },
         },
-        delay_ms: if rng.chance(1, 2) { None } else { Some(*rng.pick(&[0u32, 1])) },
+        delay_us: if rng.chance(1, 2) { None } else { Some(*rng.pick(&[0u32, 400, 1000])) },
       })
       .collect();
     let cancels = (0..rng.range(1, n)).map(|_| rng.below(n)).collect();
@@ -557,7 +558,7 @@ impl Scenario for C19Threads {
         .enumerate()
         .map(|(k, spec)| {
           let args = TArgs { id: k, logs: logs.clone(), limit: if let Kind::Repeat { limit, .. } = spec.kind { limit as usize } else { 0 } };
-          let delay = spec.delay_ms.map(|d| Duration::from_millis(d as u64));
+          let delay = spec.delay_us.map(|d| Duration::from_micros(d as u64));
           Some(match &spec.kind {
             Kind::Once => sched.schedule(OnceTask::new(t_once, args), delay),
             Kind::Repeat { period_ms, .. } => sched.schedule(RepeatTask::new(Duration::from_millis(*period_ms as u64), t_repeat, args), delay),
@@ -604,7 +605,7 @@ impl Scenario for C19Threads {
       let l = logs.lock().unwrap();
       for (k, t) in l.iter().enumerate() {
         let spec = &case.tasks[k];
-        let delay = spec.delay_ms.unwrap_or(0) as u64 * MS;
+        let delay = spec.delay_us.unwrap_or(0) as u64 * 1000;
         if !matches!(spec.kind, Kind::Repeat { .. }) && t.runs.len() > 1 {
           violation = Some(Violation { rule: "c19.more-than-once".into(), site: site.clone(), detail: format!("task {} ran {} times", k, t.runs.len()) });
         }
